@@ -35,6 +35,10 @@ void __tsan_destroy_fiber(void*) __attribute__((weak));
 void __tsan_switch_to_fiber(void*, unsigned) __attribute__((weak));
 void __tsan_acquire(void*) __attribute__((weak));
 void __tsan_release(void*) __attribute__((weak));
+void AnnotateIgnoreReadsBegin(const char*, int) __attribute__((weak));
+void AnnotateIgnoreReadsEnd(const char*, int) __attribute__((weak));
+void AnnotateIgnoreWritesBegin(const char*, int) __attribute__((weak));
+void AnnotateIgnoreWritesEnd(const char*, int) __attribute__((weak));
 void* __cxa_get_globals(void);
 extern char __libc_single_threaded;
 }
@@ -130,7 +134,13 @@ static void stack_put(void* p, std::size_t bytes) {
 static void save_eh(EhGlobals& e) { memcpy(&e, __cxa_get_globals(), sizeof e); }
 static void load_eh(const EhGlobals& e) { memcpy(__cxa_get_globals(), &e, sizeof e); }
 
+static void tsan_quiet_begin() { if (AnnotateIgnoreReadsBegin) { AnnotateIgnoreReadsBegin(__FILE__, __LINE__); AnnotateIgnoreWritesBegin(__FILE__, __LINE__); } }
+static void tsan_quiet_end() { if (AnnotateIgnoreReadsEnd) { AnnotateIgnoreWritesEnd(__FILE__, __LINE__); AnnotateIgnoreReadsEnd(__FILE__, __LINE__); } }
+KernelQuiet::KernelQuiet() { if (K.cur && K.cur->quiet++ == 0) tsan_quiet_begin(); }
+KernelQuiet::~KernelQuiet() { if (K.cur && --K.cur->quiet == 0) tsan_quiet_end(); }
+
 static void reap_zombies() {
+    KernelQuiet kq__;
     for (auto it = K.fibers.begin(); it != K.fibers.end();) {
         Fiber* f = it->get();
         if (f->st == Fiber::Done && f != K.cur && f->stack != nullptr && f->detached) {
@@ -147,6 +157,7 @@ static void reap_zombies() {
 static void switch_to(Fiber* next) {
     Fiber* prev = K.cur;
     ++K.stats.switches;
+    if (prev->quiet > 0) tsan_quiet_end();
     save_eh(prev->eh);
     if (__sanitizer_start_switch_fiber)
         __sanitizer_start_switch_fiber(prev->st == Fiber::Done ? nullptr : &prev->asan_fake, next->stack, next->stack_size);
@@ -156,10 +167,12 @@ static void switch_to(Fiber* next) {
     swapcontext(&prev->ctx, &next->ctx);
     // resumed
     if (__sanitizer_finish_switch_fiber) __sanitizer_finish_switch_fiber(prev->asan_fake, nullptr, nullptr);
+    if (prev->quiet > 0) tsan_quiet_begin();
 }
 
 [[noreturn]] static void switch_to_root() {
     Fiber* prev = K.cur;
+    if (prev && prev->quiet > 0) tsan_quiet_end();
     if (prev) save_eh(prev->eh);
     if (__sanitizer_start_switch_fiber)
         __sanitizer_start_switch_fiber(prev && prev->st != Fiber::Done ? &prev->asan_fake : nullptr, K.root_stack_bottom,
@@ -354,6 +367,7 @@ static void trampoline(unsigned lo, unsigned hi) {
 }
 
 static Fiber* make_fiber(int pid, const std::string& name, std::function<void()> fn, std::size_t stack_bytes, bool proc_main) {
+    KernelQuiet kq__;
     auto f = std::make_unique<Fiber>();
     f->id = K.next_fiber_id++;
     f->pid = pid;
@@ -386,6 +400,9 @@ static Fiber* find_fiber(int id) {
 }  // namespace detail
 
 using namespace detail;
+
+Quiet::Quiet() { if (K.cur && K.cur->quiet++ == 0) tsan_quiet_begin(); }
+Quiet::~Quiet() { if (K.cur && --K.cur->quiet == 0) tsan_quiet_end(); }
 
 // ------------------------------------------------------------------ public API
 void fail_run(const std::string& why) { abort_run("driver: " + why); }
@@ -470,6 +487,7 @@ RunStats run(std::uint64_t seed, const Knobs& knobs, const std::function<void()>
     K.cur = nullptr;
     K.stats.sim_ns = K.now;
     // abandon everything that is left
+    tsan_quiet_begin();
     for (auto& f : K.fibers) {
         unpoison_fiber(f.get());
         if (f->stack) stack_put(f->stack, f->stack_size);
@@ -481,6 +499,7 @@ RunStats run(std::uint64_t seed, const Knobs& knobs, const std::function<void()>
     K.mutexes.clear();
     net_reset_all();
     fs_reset_all();
+    tsan_quiet_end();
     K.active = false;
     rm_rf(K.scratch);
     return K.stats;
